@@ -9,6 +9,9 @@ let parse_ops (toks : string list) : op list =
   let pos = ref 1 in                                   (* a.(0) is the generator label *)
   let next () = if !pos >= Array.length a then failwith "case syntax: truncated" else (let s = a.(!pos) in incr pos; s) in
   let n = int_of_string (next ()) in
+  let addr_kind = function
+    | "bk" -> ABaseKey | "bs" -> ABaseScript | "ek" -> AEntKey | "es" -> AEntScript | "pk" -> APtrKey | "ps" -> APtrScript
+    | "rw" -> AReward | "by" -> AByron | "mf" -> AMalformed | s -> failwith ("case syntax: address kind " ^ s) in
   let in_op () =
     match next () with
     | "k" -> let h = hash_tok (next ()) in let i = n_of_string (next ()) in InKey (h, i)
@@ -34,6 +37,12 @@ let parse_ops (toks : string list) : op list =
         if kind >= 2 then go (k - 1) (OpCalc :: acc) else go (k - 1) acc
       | tok ->
       let o = match tok with
+        | ("i" | "c") as ic when !pos < Array.length a && a.(!pos) = "u" ->
+          let _ = next () in
+          let e = (match next () with "r" -> URegular | "n" -> UNative | "p" -> UPlutus | s -> failwith ("case syntax: utxo entry " ^ s)) in
+          let ak = addr_kind (next ()) in
+          let sh = hash_tok (next ()) in let h = hash_tok (next ()) in let i = n_of_string (next ()) in let rid = n_of_string (next ()) in
+          OpInU ((ic = "c"), e, ak, sh, (h, i), rid)
         | "i" -> OpIn (in_op ())
         | "c" -> OpCol (in_op ())
         | "m" ->
